@@ -186,11 +186,14 @@ def arc_sign(repo, res):
                         cols[t.id] = None
                     else:
                         env[t.id] = ev(st.value, scope)
-                elif isinstance(t, ast.Subscript) and isinstance(t.value, ast.Name) and t.value.id in cols:
+                elif isinstance(t, ast.Subscript) and isinstance(t.value, ast.Name) and (t.value.id in cols or scope.get("colview:" + t.value.id) in cols):
                     v = ev(st.value, scope)
-                    # column store inside a loop over all source arrays
-                    cols[t.value.id] = v if cols[t.value.id] is None else Abs(*(cols[t.value.id].f & v.f))
-                    env[t.value.id] = Abs(*cols[t.value.id].f)
+                    # column store inside a loop over all source arrays (directly, or through a row of the transposed view)
+                    mat = t.value.id if t.value.id in cols else scope["colview:" + t.value.id]
+                    cols[mat] = v if cols[mat] is None else Abs(*(cols[mat].f & v.f))
+                    env[mat] = Abs(*cols[mat].f)
+                else:
+                    unknown.append("the store %s" % norm(st)[:60])
             elif isinstance(st, ast.Expr) and isinstance(st.value, ast.Call) and isinstance(st.value.func, ast.Attribute) and st.value.func.attr == "append" and isinstance(st.value.func.value, ast.Name):
                 lst = st.value.func.value.id
                 v = ev(st.value.args[0], scope)
@@ -204,6 +207,14 @@ def arc_sign(repo, res):
                     tv = st.target.elts[-1] if isinstance(st.target, ast.Tuple) else st.target
                 else:
                     tv = st.target
+                if isinstance(it, ast.Call) and call_name(it) == "zip" and len(it.args) == 2 and isinstance(st.target, ast.Tuple) and len(st.target.elts) == 2 and all(isinstance(x, ast.Name) for x in st.target.elts):
+                    # for column, x in zip(M.T, xs): the rows of the transposed matrix are its columns
+                    a0, a1 = it.args
+                    if isinstance(a0, ast.Attribute) and a0.attr == "T" and isinstance(a0.value, ast.Name) and a0.value.id in cols:
+                        sc["colview:" + st.target.elts[0].id] = a0.value.id
+                        it, tv = a1, st.target.elts[1]
+                    else:
+                        unknown.append("the loop over %s" % norm(it)[:60])
                 if isinstance(it, ast.Name) and it.id == polylines:
                     sc[norm(tv)] = Abs("polyline")
                 elif isinstance(it, ast.Name):
